@@ -1,7 +1,7 @@
 (* Executable checkers applied to IMPLEMENTATION outputs by the correspondence checks (no proofs). *)
 From Coq Require Import NArith ZArith List Bool.
 Import ListNotations.
-Require Import UV.Gen.Consts UV.Mcount.Model UV.Mcount.Forest UV.Mcount.SelectSpec.
+Require Import UV.Gen.Consts UV.Mcount.Model UV.Mcount.Forest UV.Mcount.SelectSpec UV.Mcount.SelectSpec2.
 Local Open Scope N_scope.
 
 Definition case4 := (cfg * list ev * list obs * list seen5)%type.
@@ -132,3 +132,16 @@ Fixpoint mforest (f : list call) (d : N) (l : list seen5) (k : list seen5 -> boo
   | x :: r => mcall x d l (fun l' => mforest r d l' k)
   end.
 Definition ok_emb (f : list call) (orecs : list seen5) : bool := mforest f 0 orecs (fun l => is_nil l).
+
+(* C05 stage 2: -F / -N / -D / -t with depth= and time= trigger actions against [sel2] *)
+Definition ok_sel2 (tgl : list (N * strig)) (sizes : list (N * N)) (fm hc : bool) (gd thr : N) (f : list call)
+                   (orecs : list seen5) : bool :=
+  list_eqb seen_eqb orecs (map ideal (flat_map (sel2 (assoc notrig2 tgl) (assoc 0 sizes) hc (x02 fm gd thr) 0) f)).
+
+(* append-only stream (C02_stream_append_only): the stream of a shorter run is a list prefix of the longer run's *)
+Fixpoint prefix5 (l1 l2 : list seen5) : bool :=
+  match l1, l2 with
+  | [], _ => true
+  | x :: r1, y :: r2 => seen_eqb x y && prefix5 r1 r2
+  | _ :: _, [] => false
+  end.
